@@ -685,7 +685,16 @@ type SharedDecl struct {
 	Line  int
 }
 
+type TypeInv struct {
+	Pkg      string
+	RecvName string
+	Type     string // "*Stack"
+	Clause   Clause
+}
+
 type Contracts struct {
+	Writers map[string][]string // type name -> functions allowed to write its fields from outside (assumed to restore the invariant)
+	Invs   []*TypeInv
 	Funcs  map[string]*FuncContract
 	Specs  map[string]*SpecFunc // by bare name (spec names are global)
 	Ghosts map[string]*GhostDecl
@@ -704,7 +713,7 @@ type cline struct {
 	line int
 }
 
-var clauseKeywords = map[string]bool{"package": true, "spec": true, "ghost": true, "lemma": true, "axiom": true, "func": true, "requires": true, "ensures": true,
+var clauseKeywords = map[string]bool{"package": true, "spec": true, "ghost": true, "lemma": true, "axiom": true, "invariant": true, "writer": true, "func": true, "requires": true, "ensures": true,
 	"modifies": true, "decreases": true, "loop": true, "use": true, "trusted": true, "pure": true, "assert": true, "shared": true, "induct": true, "panicfree": true, "goimpl": true}
 
 func firstWord(s string) string {
@@ -884,6 +893,36 @@ func (cs *Contracts) Parse(lines []cline, pkg string) {
 			}
 			ret := p.typeText()
 			cs.Ghosts[n.s] = &GhostDecl{Pkg: pkg, Name: n.s, Params: ps, Ret: ret}
+		case "writer":
+			f := strings.Fields(rest)
+			if len(f) < 2 {
+				fail(l, fmt.Errorf("bad writer clause"))
+				continue
+			}
+			if cs.Writers == nil {
+				cs.Writers = map[string][]string{}
+			}
+			cs.Writers[f[0]] = append(cs.Writers[f[0]], f[1])
+		case "invariant":
+			// invariant (s *Stack) label: expr
+			cur, curLemma = nil, nil
+			r := strings.TrimSpace(rest)
+			j := strings.Index(r, ")")
+			if !strings.HasPrefix(r, "(") || j < 0 {
+				fail(l, fmt.Errorf("bad invariant header"))
+				continue
+			}
+			f := strings.Fields(r[1:j])
+			if len(f) != 2 {
+				fail(l, fmt.Errorf("bad invariant receiver"))
+				continue
+			}
+			c, err := parseClause(r[j+1:], l)
+			if err != nil {
+				fail(l, err)
+				continue
+			}
+			cs.Invs = append(cs.Invs, &TypeInv{Pkg: pkg, RecvName: f[0], Type: f[1], Clause: c})
 		case "lemma", "axiom":
 			cur = nil
 			p, err := newParser(rest)
